@@ -435,7 +435,7 @@ fn check2(v: usize, input: &str) -> Option<usize> {
             out.push("<E".into()); p = sh_t(t, w, p, out); p = sh_list(t, w, p, out); out.push(">".into()); p
         }
         fn sh_list(t: &[u16], w: &[RTok], mut p: usize, out: &mut Vec<String>) -> usize {
-            out.push("<EList".into());
+            out.push("<?".into());
             if p < t.len() && t[p] == PLUS { out.push("<Plus".into()); out.push(pos_of(w, p)); out.push(">".into()); p = sh_t(t, w, p + 1, out); p = sh_list(t, w, p, out); }
             out.push(">".into()); p
         }
@@ -449,7 +449,9 @@ fn check2(v: usize, input: &str) -> Option<usize> {
         let mut shape = vec!["<".to_string()];
         sh_e(&sigs, &want, 0, &mut shape);
         shape.push(">".to_string());
-        if r.shape != shape { return Some(12); }
+        // helper non-terminals introduced by the transformation (the list) are compared by position only, not by name
+        let norm: Vec<String> = r.shape.iter().map(|x| if x.starts_with('<') && !["<", "<E", "<T", "<Num", "<Plus", "<Open", "<Close"].contains(&x.as_str()) { "<?".to_string() } else { x.clone() }).collect();
+        if norm != shape { return Some(12); }
     }
     None
 }
